@@ -1,7 +1,8 @@
 (* C15 — Matrix decompositions reconstruct their input.
    Only statements closed by [exact]; proofs live in C15/. *)
-From Coq Require Import List Arith ZArith QArith.
-From PV Require Import C15.ClementsModel C15.MatProofs C15.ClementsProofs C15.ClementsNulling C15.ClementsSchedule C15.GlueProofs.
+From Coq Require Import List Arith ZArith QArith Reals.
+From PV Require Import C15.ClementsModel C15.MatProofs C15.ClementsProofs C15.ClementsNulling C15.ClementsSchedule C15.GlueProofs
+                       C15.EulerModel C15.EulerGlue C15.AnglesProofs C15.ComplexInst.
 Import ListNotations.
 Local Open Scope rng_scope.
 
@@ -162,6 +163,76 @@ Theorem C15_instructions_equiv :
   instrs_matrix d (instructions_from_decomposition dec) = inverse_clements d dec.
 Proof. exact @instructions_equiv. Qed.
 Print Assumptions C15_instructions_equiv.
+
+(* ---- euler: the three returned factors recompose both blocks of the complex-form symplectic
+   matrix, given the contracts of polar / logm(exp) / takagi on their outputs *)
+Theorem C15_euler_glue :
+  forall (A : Type) (O : ROps A) (L : RLaws O) (fc fs : mat A -> mat A)
+         d (P Aa Rp Ra Z U D u Ch Sh : mat A),
+  wf d U -> wf d D -> wf d u -> wf d Ch -> wf d Sh ->
+  P = mmul d Rp u -> Aa = mmul d Ra (mconj d u) ->
+  mmul d (madj d u) u = mid d ->
+  Rp = fc (mmul d Z (mconj d Z)) ->
+  Ra = mopp d (mmul d (fs (mmul d Z (mconj d Z))) Z) ->
+  Z = mmul d (mmul d U D) (mtr d U) ->
+  mmul d (madj d U) U = mid d -> mmul d U (madj d U) = mid d ->
+  mconj d D = D ->
+  (forall X, fc (mmul d (mmul d U X) (madj d U)) = mmul d (mmul d U (fc X)) (madj d U)) ->
+  (forall X, fs (mmul d (mmul d U X) (madj d U)) = mmul d (mmul d U (fs X)) (madj d U)) ->
+  Ch = fc (mmul d D D) -> Sh = mmul d (fs (mmul d D D)) D ->
+  let V := euler_first d U u in
+  P = euler_passive_block d U Ch V /\ Aa = euler_active_block d U Sh V /\
+  mmul d (madj d V) V = mid d.
+Proof. exact @euler_glue. Qed.
+Print Assumptions C15_euler_glue.
+
+(* ---- the nulling equation derived: clements is correct as soon as division, the zero test,
+   abs, exp(i angle) and (cos, sin)(arctan) satisfy their characterisations *)
+Theorem C15_get_angles_null :
+  forall (A : Type) (O : ROps A) (L : RLaws O)
+         (rinv : A -> A) (is0 : A -> bool) (absf expangle : A -> A) (cs_of_tan : A -> A * A),
+  (forall x, is0 x = true -> x = r0) ->
+  (forall x, is0 x = false -> x * rinv x = r1) ->
+  (forall r, r = absf r * expangle r) ->
+  (forall r, let '(c, s) := cs_of_tan (absf r) in
+             c^* = c /\ s^* = s /\ c * c + s * s = r1 /\ s = c * absf r) ->
+  forall x y, let '(c, s, e) := get_angles rinv is0 absf expangle cs_of_tan x y in e * s * x = c * y.
+Proof. exact @get_angles_null. Qed.
+Print Assumptions C15_get_angles_null.
+
+Theorem C15_clements_correct_trig :
+  forall (A : Type) (O : ROps A) (L : RLaws O)
+         (rinv : A -> A) (is0 : A -> bool) (absf expangle : A -> A) (cs_of_tan : A -> A * A),
+  (forall x, is0 x = true -> x = r0) ->
+  (forall x, is0 x = false -> x * rinv x = r1) ->
+  (forall r, r = absf r * expangle r) ->
+  (forall r, expangle r * (expangle r)^* = r1) ->
+  (forall z, z * z^* = r1 -> absf z = r1) ->
+  (forall r, let '(c, s) := cs_of_tan (absf r) in
+             c^* = c /\ s^* = s /\ c * c + s * s = r1 /\ s = c * absf r) ->
+  forall d (U : mat A), unitary d U ->
+  inverse_clements d (clements (get_angles rinv is0 absf expangle cs_of_tan) (get_phase expangle) d U) = U.
+Proof. exact @clements_correct_trig. Qed.
+Print Assumptions C15_clements_correct_trig.
+
+(* ---- complex numbers (pairs of reals): every complex unitary of every size *)
+Theorem C15_clements_correct_complex :
+  forall (angles : Cx -> Cx -> Cx * Cx * Cx) (phase : Cx -> Cx),
+  (forall x y, let '(c, s, e) := angles x y in coef_ok c s e) ->
+  (forall x y, let '(c, s, e) := angles x y in e * s * x = c * y) ->
+  (forall z, z * z^* = r1 -> phase z = z) ->
+  forall d (U : mat Cx), unitary d U ->
+  inverse_clements d (clements angles phase d U) = U.
+Proof. exact clements_correct_complex. Qed.
+Print Assumptions C15_clements_correct_complex.
+
+(* with the real sqrt, division and zero test of the standard library: no premise left but
+   unitarity of U *)
+Theorem C15_clements_correct_complex_concrete : forall d (U : mat Cx), unitary d U ->
+  inverse_clements d
+    (clements (get_angles cx_inv cx_is0 cx_abs cx_expangle cx_cs) (get_phase cx_expangle) d U) = U.
+Proof. exact clements_correct_complex_concrete. Qed.
+Print Assumptions C15_clements_correct_complex_concrete.
 
 (* ---- non-vacuity: the model run at the Gaussian rationals on a 3-mode unitary built from
    Pythagorean rotations decomposes and recomposes exactly *)
